@@ -137,6 +137,36 @@ def gen_deck(rng, n_like=None, imp_decrease=False, allow_void_mat=False):
             cells += [c_in, c_out]
             universes.append((univ, c_in['id'], c_out['id']))
 
+    # a lattice universe and a LIKE copy of it with another array
+    fill_choices = [u[0] for u in universes]
+    has_lattice = False
+    if universes and rng.random() < 0.3:
+        has_lattice = True
+        surfaces.append({'id': 61, 'mn': 'px', 'params': [-0.5], 'tr': None,
+                         'bc': ''})
+        surfaces.append({'id': 62, 'mn': 'px', 'params': [0.5], 'tr': None,
+                         'bc': ''})
+        fillers = [u[0] for u in universes]
+
+        def lat_fill():
+            lo = rng.choice([0, 0, -1])
+            n = 1 - lo + 1
+            return {'ranges': [(lo, 1), (0, 0), (0, 0)],
+                    'array': [rng.choice(fillers) for _ in range(n)]
+                    if rng.random() < 0.7 else [rng.choice(fillers)] * n,
+                    'tr': None}
+        lat = {'id': new_id(), 'mat': 0, 'rho': None,
+               'expr': ('*', ('s', 61), ('s', -62)), 'lat': 1, 'u': 5,
+               'fill': lat_fill(), 'imp': imp_of()}
+        cells.append(lat)
+        fill_choices.append(5)
+        if rng.random() < 0.7:
+            but = {'u': 6, 'fill': lat_fill()}
+            if rng.random() < 0.3:
+                but = {'fill': but['fill'], 'u': 6}
+            cells.append({'id': new_id(), 'like': lat['id'], 'but': but})
+            fill_choices.append(6)
+
     # explicit level-0 bases
     n_base = rng.choice([1, 2, 2, 3])
     sid = 1
@@ -155,7 +185,7 @@ def gen_deck(rng, n_like=None, imp_decrease=False, allow_void_mat=False):
             rng.choice([1, 1, 2]) if imp_mode == 'card' else 1), 'u': 0}
         if kind == 'cont':
             cell['mat'], cell['rho'] = 0, None
-            fill = {'u': rng.choice(universes)[0], 'tr': None}
+            fill = {'u': rng.choice(fill_choices), 'tr': None}
             if rng.random() < 0.4:
                 fill['tr'] = deckmod.make_tr(
                     [rng.choice([0, 0.1, -0.2]) for _ in range(3)],
@@ -224,7 +254,7 @@ def gen_deck(rng, n_like=None, imp_decrease=False, allow_void_mat=False):
                 if 'rho' not in but:
                     but['rho'] = rng.choice(RHOS)
             elif key == 'fill':
-                fill = {'u': rng.choice(universes)[0], 'tr': None}
+                fill = {'u': rng.choice(fill_choices), 'tr': None}
                 if rng.random() < 0.5:
                     fill['tr'] = deckmod.make_tr(
                         [rng.choice([0, 0.1, -0.2, 0.3]) for _ in range(3)],
@@ -288,7 +318,7 @@ def gen_deck(rng, n_like=None, imp_decrease=False, allow_void_mat=False):
     deck = {'title': 'C15 generated deck', 'cells': cells,
             'surfaces': surfaces, 'transforms': trs,
             'materials': {m: MATERIALS[m] for m in sorted(used)},
-            'data': data, 'imp_mode': imp_mode}
+            'data': data, 'imp_mode': imp_mode, 'has_lattice': has_lattice}
     return deck
 
 
@@ -449,7 +479,18 @@ def but_options(rng, but, repeat=False):
             tr = val.get('tr')
             star = '*' if isinstance(tr, dict) and tr.get('star') else ''
             sep = rng.choice(['=', '=', ' ', ' = '])
-            txt = f'{star}{case_of(rng, "fill")}{sep}{val["u"]}'
+            if 'ranges' in val:
+                arr = [str(u) for u in val['array']]
+                if len(arr) > 1 and len(set(arr)) == 1 and rng.random() < 0.5:
+                    arr = [arr[0], rng.choice([f'{len(arr) - 1}r',
+                                               f'{len(arr) - 1}R'])]
+                    if len(val['array']) == 2 and rng.random() < 0.5:
+                        arr[1] = rng.choice(['r', 'R'])
+                body = ' '.join([f'{lo}:{hi}' for lo, hi in val['ranges']]
+                                + arr)
+            else:
+                body = str(val['u'])
+            txt = f'{star}{case_of(rng, "fill")}{sep}{body}'
             if isinstance(tr, tuple):
                 txt += rng.choice([' ', '']) + f'({tr[1]})'
             elif tr is not None:
